@@ -42,8 +42,16 @@ type Frame struct {
 	label   string
 	tail    bool // ret holds fn+args of a pending tail call
 	tailFn  Value
-	viaTail bool // this activation was entered by a tail call
+	viaTail bool       // this activation was entered by a tail call
+	actives []actLocal // named locals in scope, in declaration order (for the debug library)
 }
+
+type actLocal struct {
+	name string
+	cell *Cell
+}
+
+func (fr *Frame) declare(name string, c *Cell) { fr.actives = append(fr.actives, actLocal{name, c}) }
 
 type protEntry struct {
 	isX     bool
@@ -267,6 +275,7 @@ func (in *Interp) callClosure(c *Closure, args []Value, tailed bool) (res []Valu
 			v = args[i]
 		}
 		fr.slots[s] = &Cell{V: v}
+		fr.declare(fn.Params[i], fr.slots[s])
 	}
 	if fn.IsVararg {
 		if len(args) > np {
@@ -285,6 +294,7 @@ func (in *Interp) callClosure(c *Closure, args []Value, tailed bool) (res []Valu
 				cell.V = t
 			}
 			fr.slots[fn.ArgSlot] = cell
+			fr.declare("arg", cell)
 		}
 	}
 	th.frames = append(th.frames, fr)
@@ -312,7 +322,18 @@ func (in *Interp) callClosure(c *Closure, args []Value, tailed bool) (res []Valu
 
 func (in *Interp) execBlock(fr *Frame, b *Block) ctl {
 	i := 0
+	base := len(fr.actives)
+	var at []int // number of active locals before statement j, for the statements executed so far
+	if len(b.Labels) > 0 {
+		at = make([]int, len(b.Stmts)+1)
+		for j := range at {
+			at[j] = -1
+		}
+	}
 	for i < len(b.Stmts) {
+		if at != nil {
+			at[i] = len(fr.actives)
+		}
 		k := in.execStmt(fr, b.Stmts[i])
 		if k == ctlNone {
 			i++
@@ -321,11 +342,22 @@ func (in *Interp) execBlock(fr *Frame, b *Block) ctl {
 		if k == ctlGoto {
 			if idx, ok := b.Labels[fr.label]; ok {
 				in.step()
+				// leaving nested blocks already dropped their locals; a backward jump also ends the scope of the
+				// locals declared after the label
+				if at[idx] >= 0 && at[idx] < len(fr.actives) {
+					fr.actives = fr.actives[:at[idx]]
+				}
 				i = idx
 				continue
 			}
 		}
+		if len(fr.actives) > base {
+			fr.actives = fr.actives[:base]
+		}
 		return k
+	}
+	if len(fr.actives) > base {
+		fr.actives = fr.actives[:base]
 	}
 	return ctlNone
 }
@@ -358,6 +390,7 @@ func (in *Interp) execStmt(fr *Frame, s Stmt) ctl {
 		in.checkReads(fr, mark)
 		for i, slot := range st.Slots {
 			fr.slots[slot] = &Cell{V: vals[i]}
+			fr.declare(st.Names[i], fr.slots[slot])
 		}
 	case *AssignStmt:
 		in.kind("assign")
@@ -435,6 +468,7 @@ func (in *Interp) execStmt(fr *Frame, s Stmt) ctl {
 		in.kind("localfunction")
 		cell := &Cell{}
 		fr.slots[st.Slot] = cell
+		fr.declare(st.Name, cell)
 		cell.V = in.makeClosure(fr, st.Fn)
 	case *ReturnStmt:
 		in.kind("return")
@@ -526,7 +560,10 @@ func (in *Interp) execNumFor(fr *Frame, st *NumForStmt) ctl {
 			break
 		}
 		fr.slots[st.Slot] = &Cell{V: idx}
+		nact := len(fr.actives)
+		fr.declare(st.Var, fr.slots[st.Slot])
 		k := in.execBlock(fr, st.Body)
+		fr.actives = fr.actives[:nact]
 		if k == ctlBreak {
 			break
 		}
@@ -557,14 +594,17 @@ func (in *Interp) execGenFor(fr *Frame, st *GenForStmt) ctl {
 			break
 		}
 		c = first
+		nact := len(fr.actives)
 		for i, slot := range st.Slots {
 			var v Value
 			if i < len(rs) {
 				v = rs[i]
 			}
 			fr.slots[slot] = &Cell{V: v}
+			fr.declare(st.Names[i], fr.slots[slot])
 		}
 		k := in.execBlock(fr, st.Body)
+		fr.actives = fr.actives[:nact]
 		if k == ctlBreak {
 			break
 		}
@@ -900,6 +940,18 @@ func (in *Interp) evalTable(fr *Frame, te *TableExpr) Value {
 // ---- primitive operations with metamethods (manual 2.8)
 
 func rawEqual(a, b Value) bool {
+	if x, ok := a.(*ONum); ok {
+		if x.Lo != x.Hi {
+			unspecified("comparison of a line number that is only known as a span")
+		}
+		a = float64(x.Lo)
+	}
+	if x, ok := b.(*ONum); ok {
+		if x.Lo != x.Hi {
+			unspecified("comparison of a line number that is only known as a span")
+		}
+		b = float64(x.Lo)
+	}
 	if af, ok := a.(float64); ok {
 		bf, ok := b.(float64)
 		return ok && af == bf
@@ -931,6 +983,7 @@ func (in *Interp) callMeta(ev string, h Value, args ...Value) Value {
 }
 
 func (in *Interp) index(obj, key Value) Value {
+	key = deline(key)
 	for loop := 0; loop < 100; loop++ {
 		var h Value
 		if t, ok := obj.(*Table); ok {
@@ -968,6 +1021,7 @@ func (in *Interp) index(obj, key Value) Value {
 }
 
 func (in *Interp) setIndex(obj, key, val Value) {
+	key = deline(key)
 	for loop := 0; loop < 100; loop++ {
 		var h Value
 		if t, ok := obj.(*Table); ok {
@@ -1009,6 +1063,11 @@ func (in *Interp) setIndex(obj, key, val Value) {
 
 func (in *Interp) toNum(v Value) (float64, bool) {
 	switch x := v.(type) {
+	case *ONum:
+		if x.Lo == x.Hi {
+			return float64(x.Lo), true
+		}
+		unspecified("arithmetic on a line number that is only known as a span")
 	case float64:
 		return x, true
 	case string:
@@ -1067,7 +1126,21 @@ func (in *Interp) arith(op string, a, b float64) float64 {
 	panic("arith " + op)
 }
 
+// deline turns an exactly known line number into a plain number; one that is only known as a span cannot be looked at.
+func deline(v Value) Value {
+	if x, ok := v.(*ONum); ok {
+		if x.Lo != x.Hi {
+			unspecified("operation on a line number that is only known as a span")
+		}
+		return float64(x.Lo)
+	}
+	return v
+}
+
 func (in *Interp) binop(op string, l, r Value) Value {
+	if op != "==" && op != "~=" {
+		l, r = deline(l), deline(r)
+	}
 	switch op {
 	case "+", "-", "*", "/", "%", "^":
 		lf, ok1 := in.toNum(l)
@@ -1222,6 +1295,7 @@ func (in *Interp) lessEqual(l, r Value) bool {
 }
 
 func (in *Interp) unm(v Value) Value {
+	v = deline(v)
 	if f, ok := in.toNum(v); ok {
 		return -f
 	}
